@@ -332,11 +332,19 @@ func checkC11(c *Check) {
 			})
 			okH := false
 			why := "handlers variable not found"
+			var leaves []ssa.Value
 			if cell != nil {
-				var leaves []ssa.Value
 				for _, st := range cellStores(cell, 0) {
 					phiLeaves(st.Val, func(l ssa.Value) { leaves = append(leaves, l) })
 				}
+			} else {
+				// the parameter is not captured (the chain closure was built by a helper that took a copy): the
+				// value that is validated and handed on
+				for _, ci := range callsNamed(rt, "flamego.validateAndWrapHandlers") {
+					phiLeaves(ci.Common().Args[0], func(l ssa.Value) { leaves = append(leaves, l) })
+				}
+			}
+			if len(leaves) > 0 {
 				for _, lv := range leaves {
 					if vParam(rt, hp)(lv) {
 						continue
@@ -346,7 +354,13 @@ func checkC11(c *Check) {
 					}
 					why = "unexpected store " + vstr(lv)
 					a := asCall(lv)
-					if a == nil || callName(&a.Call) != "builtin.append" || cellOf(a.Call.Args[1]) != cell {
+					if a == nil || callName(&a.Call) != "builtin.append" {
+						continue
+					}
+					if cell != nil && cellOf(a.Call.Args[1]) != cell {
+						continue
+					}
+					if cell == nil && !vParam(rt, hp)(a.Call.Args[1]) {
 						continue
 					}
 					hs, ok := strip(a.Call.Args[0]).(*ssa.Phi)
@@ -621,7 +635,41 @@ func checkC11(c *Check) {
 				ms = strip(a[1]).(*ssa.UnOp).X.(*ssa.IndexAddr).X
 			}
 			// ms derives from Split(methods, ",") entries trimmed and from string handlers
-			okMs := ms != nil && derivesFrom(ms, vCall("strings.TrimSpace"), nil) && derivesFrom(ms, vCall("strings.Split", vParam(m, 2), vConstStr(",")), nil)
+			isSplit := vCall("strings.Split", vParam(m, 2), vConstStr(","))
+			okMs := ms != nil && derivesFrom(ms, vCall("strings.TrimSpace"), nil) && derivesFrom(ms, isSplit, nil)
+			if ms != nil && !okMs && derivesFrom(ms, isSplit, nil) {
+				// trimmed in place: list[i] = TrimSpace(list[i]) for every i of the Split result, before it is used
+				allInstrs(m, func(in ssa.Instruction) {
+					st, ok := in.(*ssa.Store)
+					if !ok {
+						return
+					}
+					ia, ok := st.Addr.(*ssa.IndexAddr)
+					if !ok || !isSplit(ia.X) || !ascendingIndex(ia.Index) {
+						return
+					}
+					tc := asCall(st.Val)
+					if tc == nil || callName(&tc.Call) != "strings.TrimSpace" {
+						return
+					}
+					// the trimmed value is this element
+					src := strip(tc.Call.Args[0])
+					sameElem := false
+					if j, isE := elemIndex(src, isSplit); isE && strip(j) == strip(ia.Index) {
+						sameElem = true
+					}
+					if !sameElem {
+						return
+					}
+					if skip, _ := iterationSkips(m, ia, st); skip {
+						return
+					}
+					// … and not only after entries have been registered
+					if x, _ := (Query{Fn: m}).After(rc, isInstr(st)); x == nil {
+						okMs = true
+					}
+				})
+			}
 			okStr := false
 			if ms != nil {
 				okStr = derivesFrom(ms, func(v ssa.Value) bool {
